@@ -479,9 +479,14 @@ func (q builtSeq) held(pkg string, up bool) string {
 	for i := len(held) - 1; i >= 0; i-- {
 		_, _, _ = ad.unmarshalSeq(up, append([]byte{}, held[i].c...))
 	}
+	// ... and the receive buffer the sequence was decoded from is used for the next frame (C10 holds the same for every
+	// decoder type of the repository)
+	for i := range first {
+		first[i] = ^first[i]
+	}
 	for i := range q.specs {
 		if d := diff(q.pls[i], gp[i]); d != "" {
-			return fmt.Sprintf("%s %s: the decoded command %d changes after later decodes of other buffers: %s", pkg, q.names(), i, d)
+			return fmt.Sprintf("%s %s: the decoded command %d changes after later decodes of other buffers / after the buffer it was decoded from was overwritten: %s", pkg, q.names(), i, d)
 		}
 	}
 	return ""
@@ -693,7 +698,7 @@ func TestProp(t *testing.T) {
 		200000, 4500000, genCmd, checkCmd)
 
 	evid.Rapid(r, t, "sequences",
-		"rapid: package x direction x 1..6 (90% >= 2) commands of that package and direction with in-range field values as in 'commands' (DataFragment only in last position), encoded with Commands.MarshalBinary. Oracle: no panic, no error, total length = sum of the specified sizes, Commands.UnmarshalBinary(direction) gives the same CIDs and field-by-field equal payloads; held results: the encoded bytes are kept while the last command, the first n-1 commands, every command alone (Command.MarshalBinary) and the sequence again are encoded - after each call every kept slice still equals its private copy, and the first one still decodes to the sequence; the decoded commands are unchanged after every command was decoded once more from its own bytes. "+
+		"rapid: package x direction x 1..6 (90% >= 2) commands of that package and direction with in-range field values as in 'commands' (DataFragment only in last position), encoded with Commands.MarshalBinary. Oracle: no panic, no error, total length = sum of the specified sizes, Commands.UnmarshalBinary(direction) gives the same CIDs and field-by-field equal payloads; held results: the encoded bytes are kept while the last command, the first n-1 commands, every command alone (Command.MarshalBinary) and the sequence again are encoded - after each call every kept slice still equals its private copy, and the first one still decodes to the sequence; the decoded commands are unchanged after every command was decoded once more from its own bytes and the buffer they were decoded from was overwritten. "+
 			"A decode error is attributed to known finding K5 iff it appears exactly when a command is appended directly behind a DevVersionReq to a prefix that round-trips (the walk restarts at the appended command, so every command and every other adjacency of the sequence is still checked). Non-trivial: >= 2 commands.",
 		150000, 3500000, genSeq, checkSeq)
 
